@@ -560,6 +560,9 @@ impl<'a, 'b> Sem<'a, 'b> {
                             "key", "ref", "type", "once", "modelValue", "innerHTML",
                             // names at the boundary of the directive rule (`v-` / `v[A-Z]` only)
                             "v", "v1", "v_size", "v$", "value2", "vmodel",
+                            // differ from another name only in case
+                            // (not `Title`: v-model:Title would write the same key twice)
+                            "ID", "Key", "Type", "Value",
                         ])
                         .to_string();
                     if used_plain.contains(&name) {
